@@ -57,10 +57,20 @@ type zz33Entry struct {
 
 // zz33Dir is a map node. unixfs=true behaves like a go-unixfsnode directory (missing name =>
 // schema.ErrNoSuchField), unixfs=false like a plain data-model map inside a block (datamodel.ErrNotExists).
+//
+// shard != 0 makes the directory lazy, the way a HAMT-sharded go-unixfsnode directory is: the block of the
+// directory itself (the root shard) does not hold the entries; every lookup loads the child shard block `shard`
+// through the link system (and link context) the directory was reified with - i.e. through the fetcher
+// session that produced the node, whose block opener captured the session context - and answers from the
+// loaded shard. A lookup therefore fails with the context's error once that session context is done.
 type zz33Dir struct {
 	datamodel.Node // nil: methods not overridden below are not expected to be called
 	unixfs         bool
 	entries        []zz33Entry
+	shard          byte
+	ls             *linking.LinkSystem // lazy, reified: the session's link system
+	lctx           linking.LinkContext // lazy, reified: the link context of the load that produced the node
+	orig           *zz33Dir            // lazy, reified: the world's directory this node is a session-bound view of
 }
 
 func (d *zz33Dir) Kind() datamodel.Kind { return datamodel.Kind_Map }
@@ -74,6 +84,16 @@ func (d *zz33Dir) AsLink() (datamodel.Link, error) {
 	return nil, datamodel.ErrWrongKind{MethodName: "AsLink", AppropriateKind: datamodel.KindSet_JustLink, ActualKind: datamodel.Kind_Map}
 }
 func (d *zz33Dir) LookupByString(key string) (datamodel.Node, error) {
+	if d.shard != 0 {
+		if d.ls == nil {
+			panic("zz33: lookup in a lazy directory that did not come out of a link system")
+		}
+		n, err := d.ls.Load(linking.LinkContext{Ctx: d.lctx.Ctx}, cidlink.Link{Cid: zz33Cid(d.shard)}, basicnode.Prototype.Any)
+		if err != nil {
+			return nil, err
+		}
+		return n.LookupByString(key)
+	}
 	for _, e := range d.entries {
 		if e.name == key {
 			return e.node, nil
@@ -118,7 +138,12 @@ type zz33Blockstore struct {
 	w *zz33World
 }
 
+// Get honours cancellation like any block source that does I/O (bitswap, remote or on-disk stores): a request
+// whose context is already done is refused with the context's error.
 func (b *zz33Blockstore) Get(ctx context.Context, c cid.Cid) (blocks.Block, error) {
+	if err := ctx.Err(); err != nil {
+		return nil, err
+	}
 	id := b.w.idOf(c)
 	if id < 0 {
 		return nil, format.ErrNotFound{Cid: c}
@@ -135,12 +160,17 @@ type zz33BlockService struct {
 func (s *zz33BlockService) Blockstore() blockstore.Blockstore { return s.bs }
 func (s *zz33BlockService) Exchange() exchange.Interface       { return nil }
 
-func (w *zz33World) reify(_ linking.LinkContext, n datamodel.Node, _ *linking.LinkSystem) (datamodel.Node, error) {
+func (w *zz33World) reify(lc linking.LinkContext, n datamodel.Node, ls *linking.LinkSystem) (datamodel.Node, error) {
 	b, err := n.AsBytes()
 	if err != nil || len(b) != 1 {
 		return nil, errors.New("zz33: not a model block")
 	}
 	if d, ok := w.blocks[b[0]]; ok {
+		if dd, isDir := d.(*zz33Dir); isDir && dd.shard != 0 {
+			// a lazy directory is bound to the link system that loaded it (go-unixfsnode's HAMT node keeps lsys
+			// and lnkCtx.Ctx the same way)
+			return &zz33Dir{unixfs: true, shard: dd.shard, ls: ls, lctx: lc, orig: dd}, nil
+		}
 		return d, nil
 	}
 	return n, nil // a file: its bytes
@@ -149,6 +179,22 @@ func (w *zz33World) reify(_ linking.LinkContext, n datamodel.Node, _ *linking.Li
 func (w *zz33World) resolver() *basicResolver {
 	cfg := bsfetcher.NewFetcherConfig(&zz33BlockService{bs: &zz33Blockstore{w: w}})
 	return &basicResolver{FetcherFactory: cfg.WithReifier(w.reify)}
+}
+
+// zz33Same: n is the world's node want (or the session-bound view of the lazy directory want).
+func zz33Same(n, want datamodel.Node) bool {
+	if d, ok := n.(*zz33Dir); ok && d.orig != nil {
+		return datamodel.Node(d.orig) == want
+	}
+	return n == want
+}
+
+// zz33Usable looks a name that does not exist up in a directory node handed out by the resolver: a directory
+// that is still usable answers "no such field"; a lazy one whose session is gone answers with a context error.
+func zz33Usable(n datamodel.Node) bool {
+	_, err := n.LookupByString("zz")
+	_, ok := err.(schema.ErrNoSuchField)
+	return ok
 }
 
 // kinds of what a name points at
@@ -168,6 +214,7 @@ type zz33Expect struct {
 	target    byte   // missing<0: block id of the final node's block (== block)
 	nodes     []datamodel.Node
 	levels    []zz33Level
+	lazy      []bool // per directory block on the path (root first): lazy (HAMT-like) or not
 }
 
 // zz33Level describes the directory the i-th segment is looked up in (for the native real-UnixFS twin).
@@ -181,11 +228,25 @@ type zz33Level struct {
 func zz33Scenario(k int, inblock bool) (*zz33World, []string, zz33Expect) {
 	pool := []string{"a", "b"}
 	w := &zz33World{blocks: map[byte]datamodel.Node{}}
-	root := &zz33Dir{unixfs: true}
-	rootID := w.newBlock(root)
-	exp := zz33Expect{missing: -1, block: rootID, target: rootID, nodes: []datamodel.Node{root}}
+	exp := zz33Expect{missing: -1}
+	// mkDir makes a directory block on the path: head is the node the block reifies to, store the node that
+	// holds the entries (the child shard of a lazy directory, else head itself).
+	mkDir := func() (head, store *zz33Dir, id byte) {
+		lazy := verifrt.Param("LAZY", 1) == 1 && verifrt.NondetRange("lazy", 0, 1) == 1
+		exp.lazy = append(exp.lazy, lazy)
+		head = &zz33Dir{unixfs: true}
+		id = w.newBlock(head)
+		store = head
+		if lazy {
+			store = &zz33Dir{unixfs: true}
+			head.shard = w.newBlock(store)
+		}
+		return
+	}
+	root, cur, rootID := mkDir() // cur: container the next segment is looked up in; nil below a non-map
+	exp.block, exp.target, exp.nodes = rootID, rootID, []datamodel.Node{root}
+	curLazy := root != cur
 	var segs []string
-	cur := root      // container the next segment is looked up in; nil below a non-map
 	for i := 0; i < k; i++ {
 		pick := verifrt.NondetRange("seg", 0, 1)
 		name, other := pool[pick], pool[1-pick]
@@ -206,27 +267,27 @@ func zz33Scenario(k int, inblock bool) (*zz33World, []string, zz33Expect) {
 			continue
 		}
 		maxKind := zz33NumUnixfs - 1
-		if inblock {
+		if inblock && !curLazy { // the entries of a sharded directory are always links
 			maxKind = zz33InScalar
 		}
 		kind := verifrt.NondetRange("kind", 0, maxKind)
 		exp.levels = append(exp.levels, zz33Level{name: name, other: other, exists: true, kind: kind})
 		switch kind {
 		case zz33LinkDir:
-			d := &zz33Dir{unixfs: true}
-			id := w.newBlock(d)
+			d, store, id := mkDir()
 			cur.entries = append(cur.entries, zz33Entry{name, basicnode.NewLink(cidlink.Link{Cid: zz33Cid(id)})})
-			cur, exp.block, exp.target, exp.inblock = d, id, id, nil
+			cur, exp.block, exp.target, exp.inblock = store, id, id, nil
+			curLazy = d != store
 			exp.nodes = append(exp.nodes, d)
 		case zz33LinkFile:
 			id := w.newBlock(nil)
 			cur.entries = append(cur.entries, zz33Entry{name, basicnode.NewLink(cidlink.Link{Cid: zz33Cid(id)})})
-			cur, exp.block, exp.target, exp.inblock = nil, id, id, nil
+			cur, curLazy, exp.block, exp.target, exp.inblock = nil, false, id, id, nil
 			exp.nodes = append(exp.nodes, nil)
 		case zz33InMap:
 			d := &zz33Dir{unixfs: false}
 			cur.entries = append(cur.entries, zz33Entry{name, d})
-			cur = d
+			cur, curLazy = d, false
 			exp.inblock = append(exp.inblock, name)
 			exp.nodes = append(exp.nodes, d)
 		case zz33InScalar:
@@ -256,7 +317,10 @@ func zz33ToLastNode(id string, inblock bool) {
 	k := verifrt.NondetRange("k", 0, verifrt.Param("K", 3))
 	w, segs, exp := zz33Scenario(k, inblock)
 	r := w.resolver()
-	c, rem, err := r.ResolveToLastNode(context.Background(), zz33Path(segs))
+	// the caller's context stays alive for the whole entry (cancelled only when the entry is over)
+	ctx, cancel := context.WithCancel(context.Background())
+	defer cancel()
+	c, rem, err := r.ResolveToLastNode(ctx, zz33Path(segs))
 	verifrt.Observe("err", err != nil)
 	verifrt.Observe("cid", w.idOf(c))
 	verifrt.Observe("rem", strings.Join(rem, "/"))
@@ -264,10 +328,11 @@ func zz33ToLastNode(id string, inblock bool) {
 
 	if !verifrt.Symbolic() && !inblock {
 		// native only (witness and counterexample replays): the same shape on the real UnixFS stack
-		zz33RealUnixFS("C33.real-unixfs-basic", k, segs, exp, false)
-		zz33RealUnixFS("C33.real-unixfs-hamt", k, segs, exp, true)
+		zz33RealUnixFS("C33.real-unixfs", k, segs, exp, false)
 	}
 
+	// whatever the outcome, a live caller context must never surface as a context error
+	verifrt.Assert(id+".no-context-error-while-caller-alive", !zz33IsCtxErr(err))
 	if exp.missing < 0 {
 		verifrt.Assert(id+".existing-path-resolves", err == nil)
 		if err == nil {
@@ -295,7 +360,12 @@ func zz33ToLastNode(id string, inblock bool) {
 	verifrt.Reach("end")
 }
 
-// HarnessC33ToLastNode: UnixFS-shaped worlds (every entry is a link to a directory or file block).
+func zz33IsCtxErr(err error) bool {
+	return err != nil && (errors.Is(err, context.Canceled) || errors.Is(err, context.DeadlineExceeded))
+}
+
+// HarnessC33ToLastNode: UnixFS-shaped worlds (every entry is a link to a directory or file block; every
+// directory on the path is eager (basic) or lazy (HAMT-like)).
 func HarnessC33ToLastNode() { zz33ToLastNode("C33", false) }
 
 // HarnessC33ToLastNodeInBlock: worlds that also contain maps and scalars inside a block (the remainder
@@ -308,9 +378,12 @@ func HarnessC33ResolvePath() {
 	w, segs, exp := zz33Scenario(k, verifrt.Param("INBLOCK", 0) == 1)
 	r := w.resolver()
 	fp := zz33Path(segs)
+	ctx, cancel := context.WithCancel(context.Background())
+	defer cancel()
 
-	n, lnk, err := r.ResolvePath(context.Background(), fp)
+	n, lnk, err := r.ResolvePath(ctx, fp)
 	verifrt.Observe("err", err != nil)
+	verifrt.Assert("C33.resolvepath-no-context-error-while-caller-alive", !zz33IsCtxErr(err))
 	if exp.missing < 0 {
 		verifrt.Assert("C33.resolvepath-existing-resolves", err == nil)
 		if err == nil {
@@ -320,7 +393,11 @@ func HarnessC33ResolvePath() {
 			verifrt.Assert("C33.resolvepath-link-of-named-entry", w.idOf(cl.Cid) == int(exp.target))
 			want := exp.nodes[len(exp.nodes)-1]
 			if want != nil {
-				verifrt.Assert("C33.resolvepath-node-is-named-entry", n == want)
+				verifrt.Assert("C33.resolvepath-node-is-named-entry", zz33Same(n, want))
+				if d, isDir := want.(*zz33Dir); isDir && d.unixfs {
+					// the directory handed out stays usable (lazy loads included) while the caller's context lives
+					verifrt.Assert("C33.resolvepath-node-usable-while-caller-alive", zz33Usable(n))
+				}
 			} else {
 				b, berr := n.AsBytes()
 				verifrt.Assert("C33.resolvepath-node-is-named-entry", berr == nil && len(b) == 1 && b[0] == exp.target)
@@ -330,8 +407,9 @@ func HarnessC33ResolvePath() {
 		verifrt.Assert("C33.resolvepath-missing-fails", err != nil)
 	}
 
-	nodes, err := r.ResolvePathComponents(context.Background(), fp)
+	nodes, err := r.ResolvePathComponents(ctx, fp)
 	verifrt.Observe("ncomp", len(nodes))
+	verifrt.Assert("C33.components-no-context-error-while-caller-alive", !zz33IsCtxErr(err))
 	if exp.missing < 0 {
 		verifrt.Assert("C33.components-existing-resolves", err == nil)
 		verifrt.Assert("C33.components-one-node-per-segment", len(nodes) == k+1)
@@ -342,9 +420,45 @@ func HarnessC33ResolvePath() {
 	if err == nil {
 		for i := range nodes {
 			if i < len(exp.nodes) && exp.nodes[i] != nil {
-				verifrt.Assert("C33.components-are-path-nodes", nodes[i] == exp.nodes[i])
+				verifrt.Assert("C33.components-are-path-nodes", zz33Same(nodes[i], exp.nodes[i]))
+				if d, isDir := exp.nodes[i].(*zz33Dir); isDir && d.unixfs {
+					verifrt.Assert("C33.components-nodes-usable-while-caller-alive", zz33Usable(nodes[i]))
+				}
 			}
 		}
+	}
+	verifrt.Reach("end")
+}
+
+// HarnessC33CallerCancelled: the caller cancels its own context before the call. Every block load is then
+// refused by the block source, so a resolution that needs a block must fail and return nothing.
+func HarnessC33CallerCancelled() {
+	k := verifrt.NondetRange("k", 0, verifrt.Param("K", 2))
+	w, segs, exp := zz33Scenario(k, false)
+	r := w.resolver()
+	fp := zz33Path(segs)
+	ctx, cancel := context.WithCancel(context.Background())
+	cancel()
+
+	c, rem, err := r.ResolveToLastNode(ctx, fp)
+	verifrt.Observe("err", err != nil)
+	if k > 0 { // k == 0 names the root itself: no block is needed to answer
+		verifrt.Assert("C33.cancelled-caller-tolastnode-fails", err != nil)
+	}
+	if err != nil {
+		verifrt.Assert("C33.cancelled-caller-tolastnode-returns-nothing", !c.Defined() && len(rem) == 0)
+	} else {
+		verifrt.Assert("C33.cancelled-caller-tolastnode-root-only", k == 0 && w.idOf(c) == 1 && len(rem) == 0)
+	}
+	n, lnk, err := r.ResolvePath(ctx, fp)
+	verifrt.Assert("C33.cancelled-caller-resolvepath-fails", err != nil)
+	verifrt.Assert("C33.cancelled-caller-resolvepath-returns-nothing", n == nil && lnk == nil)
+	nodes, err := r.ResolvePathComponents(ctx, fp)
+	verifrt.Assert("C33.cancelled-caller-components-fails", err != nil)
+	verifrt.Assert("C33.cancelled-caller-components-returns-nothing", len(nodes) == 0)
+	verifrt.Assert("C33.cancelled-caller-nothing-fetched", len(w.gets) == 0)
+	if !verifrt.Symbolic() {
+		zz33RealUnixFS("C33.real-unixfs-cancelled", k, segs, exp, true)
 	}
 	verifrt.Reach("end")
 }
